@@ -4,6 +4,7 @@ import (
 	"bytes"
 	"context"
 	"crypto/tls"
+	"encoding/binary"
 	"fmt"
 	"math/rand"
 	"net"
@@ -294,6 +295,13 @@ func runC14(r *Result, d *drv.Driver, tier string, seed int64, replay string) {
 		if got != want {
 			r.find(Finding{Kind: "disagreement", What: "client model differs from the real Client (" + c.kind + ")", Input: map[string]string{"op": lines[i]}, Expect: want, Actual: got})
 		}
+		// the property itself, judged on the reply bytes by a generic TTLV parse (no model involved): success is reported
+		// only for a reply with batch count 1, exactly one item, the requested operation and status Success
+		if strings.HasPrefix(got, "payload ") {
+			if why := notASuccessReply(c.reply, uint32(c.op)); why != "" {
+				r.find(Finding{Kind: "violation", What: "the Client reported success for a reply that " + why, Input: map[string]string{"operation": fmt.Sprint(uint32(c.op)), "reply": hx(c.reply), "kind": c.kind, "discoverVersions": fmt.Sprint(c.dv)}, Expect: "an error", Actual: got})
+			}
+		}
 	}
 	// not connected
 	{
@@ -364,4 +372,54 @@ func endToEnd(r *Result, ca *tlsm.CA) {
 	defer cancel()
 	_ = s.Shutdown(ctx)
 	<-done
+}
+
+// notASuccessReply inspects reply bytes with the generic TTLV parser and says why they are not a successful single-item
+// reply to operation op ("" if they are, or if the generic view is not clear enough to judge)
+func notASuccessReply(b []byte, op uint32) string {
+	top := mut.Parse(b)
+	if len(top) < 1 || top[0].Tag != 0x42007b || top[0].Typ != 1 {
+		return ""
+	}
+	u32 := func(n *mut.Node) (uint32, bool) {
+		if n.Len != 4 || n.Off+12 > len(b) {
+			return 0, false
+		}
+		return binary.BigEndian.Uint32(b[n.Off+8:]), true
+	}
+	items := 0
+	var item *mut.Node
+	for _, k := range top[0].Kids {
+		switch k.Tag {
+		case 0x42007a:
+			for _, h := range k.Kids {
+				if h.Tag == 0x42000d {
+					if v, ok := u32(h); ok && v != 1 {
+						return fmt.Sprintf("declares batch count %d", v)
+					}
+				}
+			}
+		case 0x42000f:
+			items++
+			if item == nil {
+				item = k
+			}
+		}
+	}
+	if items != 1 {
+		return fmt.Sprintf("carries %d batch items", items)
+	}
+	for _, k := range item.Kids {
+		switch k.Tag {
+		case 0x42005c:
+			if v, ok := u32(k); ok && v != op {
+				return fmt.Sprintf("answers operation %d, not the requested %d", v, op)
+			}
+		case 0x42007f:
+			if v, ok := u32(k); ok && v != 0 {
+				return fmt.Sprintf("carries result status %d (not Success)", v)
+			}
+		}
+	}
+	return ""
 }
